@@ -702,7 +702,14 @@ func (c *Check) demanglerModes() string {
 // struct fields assigned from such values, parameters (over all call sites) and results of
 // module functions; a computed string counts with the constants it was compared equal to,
 // provided it is stored only where one of those comparisons succeeded.
-func possibleStrings(p *Program, v ssa.Value, depth int, seen map[ssa.Value]bool) (map[string]bool, bool) {
+func possibleStrings(p *Program, v ssa.Value, depth int, seen map[ssa.Value]bool) (res map[string]bool, okRes bool) {
+	if os.Getenv("DEBUG_PS") != "" {
+		defer func() {
+			if !okRes {
+				fmt.Printf("DEBUG_PS fail depth=%d %T %s\n", depth, v, describeValue(v))
+			}
+		}()
+	}
 	out := map[string]bool{}
 	if seen[v] {
 		return out, true
